@@ -8,7 +8,7 @@ PROP = dict(
         "ntp_proto::packet::check_uid_extensionfield, ntp_proto::cookiestash::CookieStash::store, RemoteBloomFilter::handle_response",
     ],
     bounds="ONE datagram against an NTS source (NTPv4 or NTPv5: the versions an NTS key exchange yields) with a request in flight: arbitrary pending unique id (32 bytes), "
-           "origin timestamp / client cookie, deadline and clock; arbitrary stash fill 0..=8, server-requested minimum 4..=17, reach, tries, deny flag, stratum. Datagram = "
+           "origin timestamp / client cookie, deadline (see assumptions) and clock; arbitrary stash fill 0..=8, server-requested minimum 4..=17, reach, tries, deny flag, stratum. Datagram = "
            + _T + "header48 [+draft-id (v5)] + uid field(36) [+ field Y of 16/20 bytes, cookie (v4) / reference-id response (v5)] [+ authenticator field with 16-byte nonce and 1..2 encrypted 16-byte fields, each a cookie or an unknown field] "
            "[+ trailing field X of 16..28 bytes, cookie / reference-id response]; header bytes symbolic except byte 0 (leap 0, version, mode server) and, for NTPv5, timescale/flag bytes (flag byte 15 fixed per harness: authnak or synchronized); the attacker may copy uid and origin from the request. "
            "One datagram per pending request suffices: every observable that a datagram can change is part of the arbitrary pre-state.",
@@ -17,6 +17,7 @@ PROP = dict(
             ""
             "NTS sources in the V4UpgradingToV5/UpgradedToV5 states (an NTS key exchange never yields them)",
     assumptions=[
+        "pending-request deadline = one reading of the clock +/- a symbolic distance of 1 s .. 2^20 s (in time / expired); distances below 1 s to the boundary are not covered (so that a native replay against the real clock cannot flip)",
         "IDEAL AEAD (trusted base): decrypt under s2c succeeds iff the ghost flag says the server really produced exactly this (associated data, nonce, ciphertext) triple - "
         "identified by the lengths of the three slices (AAD = everything before the authenticator field, starting at byte 0; nonce = 16 bytes; ciphertext = the field's ciphertext length) "
         "plus the first nonce byte and the first and last ciphertext byte; any other call (other lengths/bytes, other key, flag unset = forgery) fails. The flag is fixed per harness (genuine / forged); within 'genuine' the uid/origin are arbitrary, so replays of genuine responses to other requests are covered; "
